@@ -55,14 +55,20 @@ def r_fill_sign_pixel(rule, root=None):
         rule.lost("DistancePixel::Fill sites in pixel render_tile_recurse")
         return
     ivar = _interval_var(fn)
+    virtual = []
     for s in fills:
         f = {x["name"]: A.strip(x["e"]) for x in s["fields"]}
         ins = f.get("inside")
-        conds = cond_chain(fn, s) or []
-        if ins is None or ins.get("k") != "Lit" or ins["ty"] != "bool":
+        if ins is not None and ins.get("k") == "Lit" and ins["ty"] == "bool":
+            virtual.append((s, ins["v"] == "true", cond_chain(fn, s) or []))
+            continue
+        cases = _decided_cases(fn, s, ins)
+        if cases is None:
             rule.bad("pixel|fill|computed", "a tile is filled with `inside: %s`; inside/outside must each be decided by its own strict comparison of the tile's interval (`upper() < 0` / `lower() > 0`), which both fail for a NaN interval" % A.unparse(ins), A.where(fn, s))
             continue
-        inside = ins["v"] == "true"
+        virtual += [(s, v_, c_) for v_, c_ in cases]
+    for s, inside, conds in virtual:
+        ins = {"v": "true" if inside else "false"}
         want = "(%s.upper()<0.0)" % ivar if inside else "(%s.lower()>0.0)" % ivar
         other = "(%s.upper()<0.0)" % ivar
         if want not in conds or (not inside and "!" + other not in conds and other in conds):
@@ -73,6 +79,40 @@ def r_fill_sign_pixel(rule, root=None):
             rule.ok("pixel: Fill{inside:%s} only under %s and not in pixel-perfect mode" % (ins["v"], want), file=PIX, line=s["ln"])
     # the interval is the one returned by this tile's evaluation
     _check_interval_source(rule, fn, "pixel", PIX)
+
+
+def _decided_cases(fn, s, ins):
+    """`decided.map(|inside| Fill { inside, .. })` with `decided` an Option<bool> chosen by comparisons:
+    -> [(inside, conditions)] for its Some(true) / Some(false) cases (None fills nothing), else None"""
+    name = A.ident(ins) if ins is not None else None
+    if not name:
+        return None
+    for c in A.find(fn["body"], "MethodCall"):
+        if c["method"] != "map" or len(c["args"]) != 1 or c["args"][0].get("k") != "Closure":
+            continue
+        cl = c["args"][0]
+        if len(cl.get("inputs", [])) != 1 or A.binding_name(cl["inputs"][0]) != name or not any(n is s for n in A.walk(cl["body"])):
+            continue
+        src = A.strip(c["recv"])
+        if A.ident(src):
+            lets = [l for l in A.find(fn["body"], "Let") if A.binding_name(l["pat"]) == A.ident(src) and l.get("init") is not None]
+            if len(lets) != 1:
+                return None
+            outer = cond_chain(fn, lets[0]) or []
+            src = lets[0]["init"]
+        else:
+            outer = cond_chain(fn, c) or []
+        out = []
+        for leaf, cs in A.value_cases(src):
+            t_ = txt(leaf)
+            if t_ == "None":
+                continue
+            if t_ in ("Some(true)", "Some(false)"):
+                out.append((t_ == "Some(true)", list(outer) + list(cs)))
+            else:
+                return None
+        return out or None
+    return None
 
 
 def _interval_var(fn):
@@ -404,9 +444,13 @@ def r_assembly_voxel(rule, root=None):
         return
     left, val, conds, node = sat[0]
     f = {x["name"]: str(txt(x["e"])) for x in A.strip(val)["fields"]}
-    cmp_ = [c for c in conds if c.startswith("(out[index].depth>=") and "image[" not in c]
-    bound = cmp_[-1][len("(out[index].depth>="):-1] if cmp_ else None
-    if cmp_ and bound == D and f.get("depth") == D and "!" + cmp_[-1] in plain[0][2]:
+    # names for the grid depth (`let max_depth = render_config.image_size.depth();`) read as the grid depth
+    names = {D} | {A.binding_name(l["pat"]) for l in A.find(fn["body"], "Let") if l.get("init") is not None and str(txt(l["init"])) == D and not (l["pat"].get("mut"))}
+    cj_sat = A.path_conjuncts(body, node) or set()
+    cj_plain = A.path_conjuncts(body, plain[0][3]) or set()
+    cmp_ = sorted(c for c in cj_sat if re.fullmatch(r"\((.+)<=out\[index\]\.depth\)", c) and "image[" not in c)
+    bound = re.fullmatch(r"\((.+)<=out\[index\]\.depth\)", cmp_[-1]).group(1) if cmp_ else None
+    if cmp_ and bound in names and f.get("depth") in names and "(out[index].depth<%s)" % bound in cj_plain:
         rule.ok("voxel merge: depths >= the grid depth are clamped to exactly the grid depth", file=VOX, line=node["ln"])
     else:
         rule.bad("assembly|voxel|clamp", "the depth clamp compares `out[index].depth` with `%s` but assigns `%s` (grid depth: %s); it must compare with and assign the grid depth, or columns one voxel short of the top are reported saturated" % (bound, f.get("depth"), D), A.where(fn, node))
